@@ -41,6 +41,25 @@ DATETIMES = [datetime.datetime(2001, 1, 1, 10, 0, 0), datetime.datetime(2001, 1,
 PATHS = [pathlib.Path('a/b'), pathlib.Path('/abs/x y'), pathlib.Path('.'), pathlib.Path('1'), pathlib.Path('true')]
 
 
+def number_shapes():
+    """every number-like spelling of a small grammar, with every digit 0-9 in the leading position:
+    sign x mantissa shape x exponent shape, plus the YAML 1.1 integer forms (C05/C09: a string of any of
+    these shapes must come back as the same string)"""
+    out = []
+    for sign in ('', '+', '-'):
+        for d in '0123456789':
+            for mant in (d, d + '.', '.' + d, d + '.5', d + '_0', d + '0'):
+                for exp in ('', 'e1', 'E1', 'e+1', 'e-1', 'e', 'e1x'):
+                    out.append(sign + mant + exp)
+            for form in ('0x' + d, '0o' + d, '0b' + d, d + ':30', d + ':30.5', '0' + d, d + '__0'):
+                out.append(sign + form)
+        for mant in ('.', '._', '.inf', '.Inf', '.INF', '.nan', '.NaN', '.NAN', '.iNF', '.infx'):
+            for exp in ('', 'e1'):
+                out.append(sign + mant + exp)
+    seen = set()
+    return [x for x in out if not (x in seen or seen.add(x))]
+
+
 def strings(alpha, maxlen):
     for n in range(0, maxlen + 1):
         for t in itertools.product(alpha, repeat=n):
